@@ -15,7 +15,7 @@ from pyvc.runner import Bounded
 
 P = ["C12"]
 UNITS = ["CFS", "GPM", "MGD", "IMGD", "AFD", "LPS", "LPM", "MLD", "CMH", "CMD"]
-PDA_KEYS = ("demand_model", "minimum_pressure", "required_pressure", "pressure_exponent")     # EPANET 2.2-only options
+PDA_KEYS = ("demand_model", "minimum_pressure", "required_pressure", "pressure_exponent", "headerror", "flowchange")     # EPANET 2.2-only options
 NUM = re.compile(r"-?\d+\.\d+(?:[eE][-+]?\d+)?|-?\d+[eE][-+]?\d+")
 
 
